@@ -45,6 +45,7 @@ var (
 	csCJK   = []string{"漢", "字", "日", "本", "語", "か", "な", "カ", "ナ", "Ａ", "１", "、", "。", "한", "글"}
 	csEmoji = []string{"😀", "🎉", "🚀", "𝒳", "𐍈"}
 	csZero  = []string{"e\u0301", "a\u0308", "x\u200b", "o\u0302\u0301"}
+	csBad   = []string{"\xff", "\xc3", "\xe3\x81", "\x80", "\xed\xa0\x80", "\xf0\x9f\x98", "é", "漢"} // ill-formed UTF-8 (accepted inside JSON strings)
 	csEsc   = []string{`\"`, `\\`, `\n`, `\t`, `\u00e9`, `\u6f22`, `\/`, `\ud83d\ude00`}
 )
 
@@ -66,6 +67,10 @@ func text(p *prng, chars string, n int, esc bool) string {
 		case "emoji":
 			if p.intn(3) == 0 {
 				set = csEmoji
+			}
+		case "bad":
+			if p.intn(4) == 0 {
+				set = csBad
 			}
 		case "mix":
 			switch p.intn(8) {
@@ -295,7 +300,17 @@ type fault struct {
 	Kind string `json:"kind"` // insert | truncate | delete | replace
 	At   int    `json:"at"`   // byte offset inside the rendered faulty document
 	Text string `json:"text,omitempty"`
-	N    int    `json:"n,omitempty"` // bytes removed (delete, replace)
+	Raw  []byte `json:"raw,omitempty"` // the inserted text when it is not valid UTF-8 (cannot travel in a JSON string)
+	N    int    `json:"n,omitempty"`   // bytes removed (delete, replace)
+}
+
+// textFault stores the inserted text in the field that survives JSON.
+func textFault(kind string, at, n int, text string) fault {
+	f := fault{Kind: kind, At: at, N: n, Text: text}
+	if !utf8.ValidString(text) {
+		f.Text, f.Raw = "", []byte(text)
+	}
+	return f
 }
 
 type jsonCase struct {
@@ -310,6 +325,9 @@ type jsonCase struct {
 }
 
 func applyFault(doc []byte, f fault) (out []byte, truncated bool) {
+	if f.Raw != nil {
+		f.Text = string(f.Raw)
+	}
 	at := min(max(f.At, 0), len(doc))
 	n := min(max(f.N, 0), len(doc)-at)
 	switch f.Kind {
@@ -480,6 +498,9 @@ func knownJSON(mode string, flags []string, data []byte, r jsonRef, w want) stri
 		// the decoder stops at the first byte of a multi-byte character; the
 		// rest of it is in the window only if it arrived with the same read
 		return "C17/pipe-partial-char"
+	}
+	if k := knownIllFormed(w); k != "" {
+		return k
 	}
 	if knownClass("C17/tab-column") && bytes.IndexByte(w.Text[:w.Pos], '\t') >= 0 {
 		return "C17/tab-column"
